@@ -156,6 +156,57 @@ pub fn run(ctx: &Ctx) -> Report {
             v
         })
         .collect();
+    // fingerprinted messages with many attributes (n = 48, 63..=66, 100, 129, 257, 1025 small attributes of
+    // distinct types, plain and behind MESSAGE-INTEGRITY): the builder's value, acceptance, and every bit
+    // of the header, of the first three attributes, of the attributes around every 32nd and of the last
+    // five attributes and the CRC value
+    let many: Vec<Vec<u8>> = [48usize, 63, 64, 65, 66, 100, 129, 257, 1025]
+        .iter()
+        .flat_map(|n| {
+            let mut v = Vec::new();
+            for with_mi in [false, true] {
+                let mut bld = real::builder(if with_mi { 2 } else { 0 }, 0x008, 0x0C0C_0D0D_0E0E_0F0F_1010_1111);
+                for i in 0..*n {
+                    let val = [(i >> 8) as u8, i as u8, 0x5A];
+                    bld.add_raw_attribute(stun_types::attribute::RawAttribute::new((0xC100 + i as u16).into(), &val[..i % 4]).into_owned()).unwrap();
+                }
+                if with_mi {
+                    let creds: stun_types::message::MessageIntegrityCredentials = stun_types::message::ShortTermCredentials::new("many".to_owned()).into();
+                    bld.add_message_integrity(&creds, stun_types::message::IntegrityAlgorithm::Sha1).unwrap();
+                }
+                bld.add_fingerprint().unwrap();
+                v.push(bld.build());
+            }
+            v
+        })
+        .collect();
+    let acc_many = many
+        .par_iter()
+        .fold(Acc::default, |mut a, m| {
+            a.nontrivial += 1;
+            judge_guarded(judge, &Case::new("builder_value", m.clone()), &mut a);
+            let n = m.len();
+            let mut positions: Vec<usize> = (0..44.min(n)).collect();
+            if let Ok(dm) = wire::decode(m) {
+                for (i, at) in dm.attrs.iter().enumerate() {
+                    if i % 32 <= 1 || i % 32 == 31 || i + 6 > dm.attrs.len() {
+                        positions.extend(at.offset..at.end().min(n));
+                    }
+                }
+            }
+            positions.sort();
+            positions.dedup();
+            for p in positions {
+                for bit in 0..8 {
+                    let mut b = m.clone();
+                    b[p] ^= 1 << bit;
+                    judge_guarded(judge, &mutant_case(m, b, "bitflip-many"), &mut a);
+                }
+            }
+            a
+        })
+        .reduce(Acc::default, |a, b| a.merge(b));
+    acc = acc.merge(acc_many);
     let acc_big = big
         .par_iter()
         .fold(Acc::default, |mut a, m| {
